@@ -11,6 +11,7 @@ R6.3 mass-action guards: every stochastic mass-action form vanishes when a react
 multiplicity m has fewer than m copies (from the extracted formulas of C01).
 R6.4 safe mode: the requirement table lists every consumed species with the amount consumed and
 the stochastic evaluators of the safe interface zero an under-supplied reaction.
+R6.4b the requirement scan of the safe evaluators runs for every reaction: its condition is the sentinel test and the flag test only.
 """
 import ast
 
